@@ -71,8 +71,12 @@ func (l *leader) onChangeConfig(t changeConfig) {
 		return
 	}
 
+	latest := l.configs.Latest.Index
 	l.checkConfigActions(t.task, t.newConf)
-	if l.configs.IsCommitted() {
+	if l.configs.Latest.Index == latest {
+		// (not IsCommitted(): with a single voter an action stored by
+		// checkConfigActions is committed at once, and the task would be
+		// stored - and completed - a second time)
 		if trace {
 			println(l, "no configActions changed")
 		}
